@@ -606,10 +606,14 @@ mod query {
     ) -> Result<Option<ByRevision>, Error> {
         let revision_id = *id;
         let mut stmt = db.prepare(
+            // Nb. Only the direct children of `$.revisions` are revisions: `json_each`, not
+            // `json_tree` (which also matches nested keys such as comment identifiers), and a
+            // redacted revision is serialized as `null`, which is not a revision.
             "SELECT patches.id, patch, revisions.value AS revision
-             FROM patches, json_tree(patches.patch, '$.revisions') AS revisions
+             FROM patches, json_each(patches.patch, '$.revisions') AS revisions
              WHERE repo = ?1
              AND revisions.key = ?2
+             AND revisions.type = 'object'
             ",
         )?;
         stmt.bind((1, rid))?;
